@@ -65,12 +65,20 @@ Proof.
   - inversion H; subst. rewrite Nat.eqb_refl. simpl. apply IH. reflexivity.
 Qed.
 
+Lemma src_eqb_eq a b : src_eqb a b = true <-> a = b.
+Proof.
+  destruct a as [[d1 e1]|], b as [[d2 e2]|]; simpl; split; intros H; try reflexivity; try discriminate.
+  - apply andb_true_iff in H. destruct H as [A B]. apply Nat.eqb_eq in A. apply Nat.eqb_eq in B.
+    subst. reflexivity.
+  - inversion H; subst. rewrite !Nat.eqb_refl. reflexivity.
+Qed.
+
 Lemma fetch_eqb_eq a b : fetch_eqb a b = true <-> a = b.
 Proof.
-  unfold fetch_eqb. rewrite andb_true_iff, Nat.eqb_eq, list_nat_eqb_eq.
+  unfold fetch_eqb. rewrite !andb_true_iff, Nat.eqb_eq, !list_nat_eqb_eq, src_eqb_eq.
   destruct a, b; simpl. split.
-  - intros [A B]. subst. reflexivity.
-  - intros H. inversion H. split; reflexivity.
+  - intros [[[A B] C] D]. subst. reflexivity.
+  - intros H. inversion H. repeat split; reflexivity.
 Qed.
 
 Lemma in_ids l f : In f l -> In (fid f) (ids l).
